@@ -16,6 +16,7 @@ package props
 import (
 	"encoding/json"
 	"fmt"
+	"strings"
 	"testing"
 
 	"github.com/google/jsonschema-go/jsonschema"
@@ -215,6 +216,11 @@ func genC06(t *rapid.T) *c06Case {
 		}
 		pick := cands[n(len(cands), "final")]
 		final, kind = pick[0], pick[1]
+		if strings.HasSuffix(final, "#N") && n(4, "pctfragment") == 0 {
+			// the same reference with its fragment percent-encoded (an equivalent URI reference)
+			final = strings.TrimSuffix(final, "N") + []string{"%4E", "%4e"}[n(2, "pcthex")]
+			kind += "/percent-encoded"
+		}
 		path.Final, path.FinalKind = final, kind
 		// lay down the hops
 		for pos := 0; pos < len(chain); pos++ {
